@@ -22,7 +22,7 @@ NOT decided: equality with a reference string, agreement of find/compare with th
 import os
 
 from .. import nw
-from ..facts import Prover, edge_atoms, _k
+from ..facts import Prover, edge_atoms, _k, strip_bitcasts
 from ..ir import const_int, resolve_addr, mem_access
 from .c17 import abort_only
 from .util import header_functions, floc
@@ -119,7 +119,7 @@ def run(m, rep, tier):
                 t2.undecided(pf.name, 'no inlined body')
                 continue
             count_changers += 1
-            check_terminator(m, f, pf, t2)
+            _terminator_obligation(m, f, pf, t2, set())
         # direct stores to the vector's count from string code
         for s in pf.all_insts():
             if s.op == 'store':
@@ -321,6 +321,70 @@ def run(m, rep, tier):
     check_assert_effects(m, _ae, ('_string.c', '_string.h', 'string.c', 'string.h'))
 
 
+class _Collect:
+    """stands in for a rule: remembers the single verdict check_terminator produces"""
+    def __init__(self):
+        self.kind = None
+        self.args = None
+
+    def violation(self, *a):
+        self.kind, self.args = 'violation', a
+
+    def ok(self, *a):
+        self.kind, self.args = 'ok', a
+
+    def undecided(self, *a):
+        self.kind, self.args = 'undecided', a
+
+
+def _nul_loop_reaches_n(f, s, idx, reqs):
+    """the NUL store s, indexed by a loop variable: does the loop run idx over a range that ends exactly at n (for a request
+    r = n + 1)?  idx steps by one, starts at a value known to be <= n (or n itself), the store sits under idx <= n and the
+    only way out of the loop is idx > n.  Returns the matching request or None."""
+    from ..facts import phi_leaves, edge_atoms
+    from ..ir import unit_step
+    P = f.get(strip_bitcasts(f, idx)) if isinstance(idx, str) else None
+    if P is None or P.op != 'phi':
+        return None
+    pv = Prover(f)
+    steps = [o for o in P.o if isinstance(o, str) and unit_step(f, o) == (P.ref, 1)]
+    inits = [o for o in P.o if o not in steps]
+    if not steps or not inits:
+        return None
+    for r in reqs:
+        n = f.get(r).o[0]
+        nk = _k(strip_bitcasts(f, n)) if isinstance(n, str) else n
+        if not (pv.prove_at(('ule', P.ref, nk), s) or pv.prove_at(('ult', P.ref, r), s)):
+            continue
+        def le_n(v, facts):
+            return v in (nk, n) or any(op in ('ule', 'ult') and x == v and y in (nk, n) for (op, x, y) in facts)
+
+        def init_ok(o, facts, depth=0):
+            o = strip_bitcasts(f, o) if isinstance(o, str) else o
+            if le_n(o, facts):
+                return True
+            oi = f.get(o) if isinstance(o, str) else None
+            if oi is not None and oi.op == 'phi' and depth < 3:
+                # a merged start value (min(size, n)): each alternative under the facts of its own edge
+                return all(init_ok(v, pv.fc.edge_facts(f.bb[bb], oi.block), depth + 1) for v, bb in zip(oi.o, oi.x['bb']))
+            return False
+        ok = True
+        for o, bb in zip(P.o, P.x['bb']):
+            if o in inits and not init_ok(o, pv.fc.edge_facts(f.bb[bb], P.block)):
+                ok = False
+        if not ok:
+            continue
+        loop = [b for b in f.blocks if f.dominates_block(P.block, b) and P.block in f.reachable_from(b)]
+        inl = {b.idx for b in loop}
+        exits = [(b, sx) for b in loop for sx in b.succ if sx.idx not in inl and not (sx.insts and sx.term is not None and sx.term.op == 'unreachable')]
+        if len(exits) != 1:
+            continue
+        atoms, _ = edge_atoms(f, exits[0][0], exits[0][1])
+        if any((op == 'ult' and x in (nk, n) and y == P.ref) or (op == 'ule' and x == r and y == P.ref) for (op, x, y) in atoms):
+            return r
+    return None
+
+
 def check_terminator(m, f, pf, rule):
     """f: inlined body of a function that (un-inlined, pf) calls cstl_vector_resize"""
     bad = []
@@ -336,6 +400,7 @@ def check_terminator(m, f, pf, rule):
         return
     allocs = [c for c in f.all_insts() if c.op == 'call' and c.callee in ('realloc', 'malloc')]
     nul = []
+    looped = []
     for s in f.all_insts():
         if s.op != 'store':
             continue
@@ -356,11 +421,16 @@ def check_terminator(m, f, pf, rule):
         match = [r for r in reqs if f.get(r).o[0] == idx]
         if match:
             nul.append((s, base, match[0]))
+        else:
+            r_loop = _nul_loop_reaches_n(f, s, idx, reqs)
+            if r_loop is not None:
+                nul.append((s, base, r_loop))
+                looped.append(s)
     if not nul:
         rule.violation(pf.name, 'no store of the NUL character at element n (for a request of n + 1 elements) after the resize', floc(m, pf), {})
         return
     for r in f.returns():
-        if not any(f.dominates(s, r) for s, _, _ in nul):
+        if not any(f.dominates(s, r) or (s in looped and f.dominates(f.get(strip_bitcasts(f, f.get(s.o[1]).o[1])), r)) for s, _, _ in nul):
             bad.append('a path to the return at %s does not write the terminator' % r.loc())
     for s, base, req in nul:
         for a in allocs:
@@ -378,6 +448,26 @@ def check_terminator(m, f, pf, rule):
         rule.violation(pf.name, '; '.join(sorted(set(bad))[:3]), floc(m, pf), {})
     else:
         rule.ok(pf.name, 'request n+1; NUL stored at element n via re-read base; dominates %d return(s)' % len(f.returns()), floc(m, pf))
+
+
+def _terminator_obligation(m, f, pf, rule, seen):
+    """the function that asks the vector for n + 1 elements writes the terminator itself -- or, if it is a private helper
+    that only sets the count, every one of its callers does"""
+    col = _Collect()
+    check_terminator(m, f, pf, col)
+    if col.kind == 'violation' and 'no store of the NUL character' in col.args[1] and pf.linkage == 'internal' and pf.name not in seen:
+        seen.add(pf.name)
+        callers = [g for g in m.all_plain_functions() if os.path.basename(g.file or '') in ('_string.c', '_string.h', 'string.c', 'string.h')
+                   and any(c.callee == pf.name for c in g.calls())]
+        if callers:
+            for g in callers:
+                gi = m.ifn(g.name)
+                if gi is None:
+                    rule.undecided(g.name, 'no inlined body')
+                else:
+                    _terminator_obligation(m, gi, g, rule, seen)
+            return
+    getattr(rule, col.kind)(*col.args)
 
 
 def _reaches(f, a, b):
